@@ -163,7 +163,7 @@ def run_plan(plan, tier, seed, t0):
         log = os.path.join(logs, "kani_%s_%s.log" % (g["package"], hashlib.md5(" ".join(g["filters"]).encode()).hexdigest()[:6]))
         for attempt in range(3):
             r = vlib.run_kani(g["package"], g["filters"], g["harness"], jobs=g.get("jobs"), timeout=g.get("timeout", 3000),
-                              extra=g.get("extra", ()), log=log, harness_timeout=(g.get("harness_timeout") or (300 if tier == "quick" else 1500)))
+                              extra=g.get("extra", ()), log=log, harness_timeout=(g.get("harness_timeout") or (300 if tier == "quick" else 600)))
             # a harness module of ANOTHER property that no longer compiles must not blind this check: stub it and retry
             culprit = None
             if r.get("build_error"):
